@@ -22,6 +22,9 @@ SAFE = LETTERS + DIGITS + SAFE_PUNCT
 # printable ASCII minus the three RTF metacharacters (for text_convert=False)
 ASCII_NOMETA = "".join(chr(c) for c in range(0x20, 0x7F) if chr(c) not in "\\{}")
 
+EXOTIC = [chr(0xE9), chr(0xA0), "e" + chr(0x301), chr(0x3A9), chr(0x4E2D), chr(0x5D0), chr(0x1F600), chr(0xB5) + "g",
+          chr(0x2264), chr(0xB1), chr(0x2013), chr(0x201C) + "q" + chr(0x201D), chr(0xDF), chr(0x130)]
+
 COLORS = None
 BORDERS = ["single", "double", "thick", "dotted", "dashed", "small-dash", "dash-dotted",
            "dash-dot-dotted", "triple", "wavy", "double-wavy", "striped", "embossed",
@@ -58,7 +61,18 @@ def safe_cell_text(rng, convert=True, long_p=0.0):
     if r < 0.24:
         # values that are sentinels elsewhere in the library
         return rng.choice(["-----", "None", "null", "nan", "0", "-"])
+    if r < 0.30:
+        # strings that look like numbers, booleans, missing-value markers or markup
+        return rng.choice(["007", "1e5", "1.0", "+5", "1,000", "0x1F", "NaN", "True", "false", "NULL", "N/A", "<NA>",
+                           "50%", "a&b", "&amp;", "\"q\"", "it's", "#1", "1/2", "(12.5)", "12 (34.5%)", "<0.001",
+                           "a  b", "x;y", "--", "...", "[1]", "*", "~"])
+    if r < 0.34:
+        # one very long word without a blank
+        return text(rng, LETTERS + DIGITS, 30, 90)
     t = text(rng, alpha, 1, 14)
+    if rng.random() < 0.06:
+        # non-ASCII: Latin-1, no-break space, combining mark, Greek, CJK, right-to-left, astral
+        t += rng.choice(EXOTIC)
     if rng.random() < 0.25:
         t = " " * rng.randint(1, 3) + t
     if rng.random() < 0.25:
@@ -514,6 +528,14 @@ def gen_table_spec(rng, *, nrows=(0, 30), ncols=(1, 6), strategy=None, header=No
                                color_pool=color_pool))
     if rng.random() < as_colheader_false:
         body["as_colheader"] = False
+    # HOW an option is supplied must not matter: the default given explicitly, None or an empty list instead
+    # of leaving the argument out
+    if rng.random() < 0.3:
+        for k, dv in (("new_page", False), ("pageby_row", "column"), ("as_colheader", True), ("pageby_header", True),
+                      ("page_by", rng.choice([None, []])), ("subline_by", rng.choice([None, []])),
+                      ("group_by", rng.choice([None, []])), ("text_convert", True), ("col_rel_width", None)):
+            if k not in body and rng.random() < 0.35:
+                body[k] = dv
     ndisp = displayed_count(nc, body)
     spec: dict = {"kind": "table", "df": df, "body": body, "_meta": meta}
     if rng.random() < 0.5:
